@@ -249,10 +249,37 @@ func (c *Ctx) c19Server(rel, name string) {
 	}
 	isLisClose := func(in ssa.Instruction) bool {
 		call, ok := in.(*ssa.Call)
-		if !ok || !call.Call.IsInvoke() || call.Call.Method.Name() != "Close" {
+		if !ok {
 			return false
 		}
-		return eng.SameField(eng.LoadedField(call.Call.Value), fLis)
+		if !call.Call.IsInvoke() {
+			// the listener field holds a decorator that embeds the bound listener: Close is the
+			// promoted method, called on the field's value
+			if g := eng.StaticCallee(call.Common()); g != nil && g.Name() == "Close" && g.Signature.Recv() != nil && len(call.Call.Args) == 1 {
+				return eng.SameField(eng.LoadedField(call.Call.Args[0]), fLis)
+			}
+			return false
+		}
+		if call.Call.Method.Name() != "Close" {
+			return false
+		}
+		// the field itself, or the listener embedded in the decorator the field points to
+		v := call.Call.Value
+		for d := 0; d < 4 && v != nil; d++ {
+			if eng.SameField(eng.LoadedField(v), fLis) {
+				return true
+			}
+			u, isU := v.(*ssa.UnOp)
+			if !isU || u.Op != token.MUL {
+				break
+			}
+			fa, isFA := u.X.(*ssa.FieldAddr)
+			if !isFA {
+				break
+			}
+			v = fa.X
+		}
+		return false
 	}
 	if doneRecv == nil {
 		r.Bad("C19/LISTENER", name+":Start", p.Pos(start.Pos()), "Start does not wait for ctx.Done(): the listener is never closed on shutdown")
